@@ -390,6 +390,69 @@ fn vec_entry<T: Copy + Default + 'static>(b: &'static Bump, s: &W6Script) -> Got
                 std::mem::forget(v);
                 return Got::Err;
             }
+            // how the vector came to be: the raw capacity field of a zero-sized vector is
+            // whatever the constructor or the last shrink left there
+            let _ = call6(0, || match (n / 72) % 4 {
+                0 => {}
+                1 => v = BVec::with_capacity_in(8, b),
+                2 => {
+                    for _ in 0..8 {
+                        v.push(T::default());
+                    }
+                    v.shrink_to_fit();
+                }
+                _ => {
+                    v.extend((0..8).map(|_| T::default()));
+                    v.shrink_to_fit();
+                    for _ in 0..12 {
+                        v.push(T::default());
+                    }
+                }
+            });
+            if (n / 288) % 2 == 1 {
+                // an ordinary length; the count asked for is what overflows
+                let _ = call6(0, || {
+                    while v.len() < 3 {
+                        v.push(T::default());
+                    }
+                });
+                let len0 = v.len();
+                if len0 < 3 {
+                    std::mem::forget(v);
+                    return Got::Err;
+                }
+                // len0 + count = usize::MAX + 1 + (0..2): does not fit, and count itself does
+                let count = usize::MAX - len0 + 1 + n % 3;
+                let how = (n / 9) % 5;
+                let r = call6(0, || match how {
+                    0 => {
+                        v.reserve(count);
+                        true
+                    }
+                    1 => {
+                        v.reserve_exact(count);
+                        true
+                    }
+                    2 => v.try_reserve(count).is_ok(),
+                    3 => v.try_reserve_exact(count).is_ok(),
+                    _ => {
+                        let src: &[T] = unsafe { std::slice::from_raw_parts(std::ptr::NonNull::<T>::dangling().as_ptr(), count) };
+                        v.extend_from_slice_copy(src);
+                        true
+                    }
+                });
+                let len1 = v.len();
+                std::mem::forget(v);
+                return match r {
+                    Ok(true) => Got::Panic(
+                        PanicClass::Other,
+                        format!("CAPACITY-SHORT a vector of {} zero-sized elements accepted {} more (method {}, history {}); its length is now {}", len0, count, how, (n / 72) % 4, len1),
+                    ),
+                    Ok(false) => Got::Err,
+                    Err((_, m)) if how == 2 || how == 3 => Got::Panic(PanicClass::Other, format!("CAPACITY-SHORT (a fallible reservation panicked instead of returning Err) {}", m)),
+                    Err(_) => Got::Err,
+                };
+            }
             let len0 = usize::MAX - (n % 3);
             let extra = 1 + (n / 3) % 3;
             let how = (n / 9) % 8;
